@@ -372,4 +372,53 @@ def generic_rules(ctx, rule='RG'):
     n += logging_purity_rules(ctx, rule, paths, only)
     n += shared_state_rules(ctx, rule, paths, only)
     n += truthiness_rules(ctx, rule, paths, only)
+    n += fresh_packet_rules(ctx, rule, paths, only)
+    return n
+
+
+def fresh_packet_rules(ctx, rule, paths, only=None):
+    """A packet object handed to send_packet() is not changed or refilled afterwards by the same function: the drivers queue the
+    *object* and serialise it later, so a later change shows in the transmission that was already queued.  For every
+    `X.send_packet(v)` with a local v: no store into v (v.data = .., v.data.append, v.set_header ..) is reachable from the transmission
+    without v being bound to a new packet first.  (Sending the same unchanged packet again - a retry - is fine.)"""
+    m = ctx.model
+    n = 0
+    for path in paths:
+        for f in m.mod(path).all_funcs():
+            if only is not None and (path, f.qualname) not in only:
+                continue
+            sends = [c for c in walk_own(f.node) if isinstance(c, ast.Call) and isinstance(c.func, ast.Attribute) and c.func.attr == 'send_packet' and c.args and
+                     isinstance(c.args[0], ast.Name) and c.args[0].id not in f.params]
+            if not sends:
+                continue
+            g = cfg_of(f)
+            for c in sends:
+                v = c.args[0].id
+                sn = g.node_of(c)
+                if sn is None:
+                    continue
+                defs = [x for x in g.nodes if x.kind == 'stmt' and isinstance(x.ast, ast.Assign) and any(norm(t) == v for t in x.ast.targets)]
+                if not defs:
+                    continue
+                uses = []
+                for x in g.nodes:
+                    if x.ast is None or x.kind not in ('stmt',):
+                        continue
+                    for y in walk_own(x.ast):
+                        if isinstance(y, ast.Attribute) and isinstance(y.ctx, ast.Store) and isinstance(y.value, ast.Name) and y.value.id == v:
+                            uses.append((x, 'field stored'))
+                        elif isinstance(y, ast.Call) and isinstance(y.func, ast.Attribute) and y.func.attr in MUTATORS + ('set_header',) and \
+                                (norm(y.func.value) == v or norm(y.func.value).startswith(v + '.')):
+                            uses.append((x, 'changed in place'))
+                bad = None
+                for x, how in uses:
+                    if x in defs:
+                        continue
+                    w = g.path_avoiding(sn, [x], avoid=defs)
+                    if w is not None:
+                        bad = '%s at line %d' % (how, x.line)
+                        break
+                n += 1
+                ctx.inst(rule, f, 'packet-not-reused:%s@%d' % (v, int(c.lineno)), bad is None,
+                         'the packet %s is queued by send_packet (line %d) and must not be used again before a new one is created; %s' % (v, int(c.lineno), bad or 'ok'))
     return n
